@@ -571,6 +571,9 @@ func genScenario(R *rand.Rand, thorough bool) *scenario {
 	for i, m := 0, R.Intn(4); i < m; i++ {
 		fchains = append(fchains, foreignChainPool[R.Intn(len(foreignChainPool))])
 	}
+	// No duplicates: the "jump only to chains later in the list" rule below keeps the foreign chain graph
+	// acyclic only if every chain occurs once (a real kernel cannot hold a jump loop in the first place).
+	fchains = dedupe(fchains)
 	for _, fc := range fchains {
 		st.AddChain(fc)
 	}
@@ -707,6 +710,9 @@ func genScenario(R *rand.Rand, thorough bool) *scenario {
 			}
 			c.Rules[i] = nr
 		}
+	}
+	if st.HasLoop() {
+		panic("harness bug: the generated starting table contains a jump loop")
 	}
 	sc.start = st
 
